@@ -110,6 +110,13 @@ CHECKS = {
         note="Trusts the reference model in vf/props/c09.py (Model.construct); undocumented shapes are not generated (bare re-annotation over an inherited default_factory / init=False flag, hand-written constructors not matching their class's declarations).",
         ref="DESIGN.md section 4, C09",
     ),
+    "C11": dict(
+        level="exploration",
+        technique="model-based property testing: Hypothesis-generated dependency graphs and histories against a dirty-closure model; generated pure getters with call counters",
+        text="Hypothesis generates dependency graphs (<= 4 derived nodes: cached / uncached, overridable spec_property nodes with invalidated_by lists or '*', Attr(invalidated_by=) nodes, chains, dependants declared on a parent or on a spec subclass, caches filled in __post_init__) over managed, unmanaged and list-valued base attributes, and histories of up to 14 reads, overrides, cache deletions and mutations through every entry point (assignment, deletion, scalar / element / top-level helpers, in place and copy, some failing); every read must equal the recomputation from current state (or the surviving override / the default), and reads of values that nothing invalidated must not re-run the getter. Sampled search.",
+        note="Trusts the dirty-closure model in vf/props/c11.py; getters are generated as pure functions of exactly their declared dependencies.",
+        ref="DESIGN.md section 4, C11",
+    ),
 }
 
 NOT_YET = "check not built yet in this revision (see DESIGN.md section 9 for the order); nothing is claimed"
